@@ -105,6 +105,8 @@ def run(tier):
             nsame += 1
             if "multi=0" not in o:
                 ctx.note_nontrivial(c)
+        elif o.startswith("SKIP"):
+            ctx.dist("programs.skipped_sticky_panicking", 1)
         else:
             nfail += 1
             if nfail <= 6:
